@@ -72,10 +72,43 @@ func applyC14Edit(g *rng.R, w0 *world.World, cfg world.Cfg, kind int) (*world.Wo
 			for t := 0; t < 2; t++ {
 				if np.HasDirection(ing) {
 					rule := world.GenNPRule(g, w, cfg, np.Ns, !ing)
+					// goal-directed: reuse a CIDR the policy already mentions, with other excepts
+					if g.P(0.4) {
+						var cidrs []string
+						for _, rules := range [][]world.NPRule{np.Ingress, np.Egress} {
+							for _, ru := range rules {
+								for _, pe := range ru.Peers {
+									if pe.IPBlock != nil {
+										cidrs = append(cidrs, pe.IPBlock.CIDR)
+									}
+								}
+							}
+						}
+						if len(cidrs) > 0 {
+							ib := &world.IPB{CIDR: rng.Pick(g, cidrs)}
+							for _, e := range world.CIDRs {
+								if el, eh, ok := world.CIDRRange(e); ok {
+									if cl, ch, _ := world.CIDRRange(ib.CIDR); el >= cl && eh <= ch && !(el == cl && eh == ch) && g.P(0.3) {
+										ib.Except = append(ib.Except, e)
+									}
+								}
+							}
+							rule.Peers = append(rule.Peers, world.NPPeer{IPBlock: ib})
+						}
+					}
+					prepend := g.P(0.5) // rules are unordered: the new rule may come first
 					if ing {
-						np.Ingress = append(np.Ingress, rule)
+						if prepend {
+							np.Ingress = append([]world.NPRule{rule}, np.Ingress...)
+						} else {
+							np.Ingress = append(np.Ingress, rule)
+						}
 					} else {
-						np.Egress = append(np.Egress, rule)
+						if prepend {
+							np.Egress = append([]world.NPRule{rule}, np.Egress...)
+						} else {
+							np.Egress = append(np.Egress, rule)
+						}
 					}
 					return w, "addRule", "superset", nil
 				}
